@@ -2,7 +2,7 @@
 import re
 from .facts import op_local, Slice, uses_of_local, place_fields, op_const
 from .lib import (bool_switches, enum_switches, assigns_variant, copies_of, field_writes, forward_calls,
-                  const_bool_assign_blocks, path_exists)
+                  const_bool_assign_blocks, path_exists, field_reads)
 
 CRATES = ["cascette_client_storage"]
 
@@ -125,6 +125,14 @@ def r2_flush_retry(ctx, cfg):
     if not ctx.anchor("C05.R2", okb, "an Ok(..) return in add_entry"):
         return
     app_blocks = {c.bb for c in apps}
+    # Ok means the entry is in the index: every path from the entry to Ok passes an append - or, for an "it is already there" shortcut, has looked at
+    # the STATUS of what it found (an entry with the same location can be the key's delete tombstone: remove_entry copies the location into it)
+    status_reads = {i for (i, j) in field_reads(b, "status")}
+    skip_ok = b.reachable([0], avoid=app_blocks | status_reads) & set(okb)
+    ctx.check(not skip_ok, "C05.R2", [b.id, "ok-without-append"], "no Ok without an append (or a look at the found entry's status)",
+              "add_entry can return Ok(()) on a path that neither appends the entry nor looks at the status of an entry it found: a shortcut for 're-adding what "
+              "is already there' that compares locations only also matches the key's delete tombstone (remove_entry builds it from the removed entry), so a "
+              "re-add after a remove is dropped and the key stays deleted although add_entry reported success", b.loc(), sample={"ok_blocks": sorted(okb)[:4]})
     flush = b.calls_matching(cfg["flush_pat"])
     for n, c in enumerate(apps):
         sw = bool_switches(b, c.dest[0])
@@ -180,11 +188,51 @@ def r3_precedence(ctx, cfg):
                               "update-section search dominates sorted search",
                               "search_both_sections can reach the sorted-section search without consulting the update section first",
                               s.loc(), sample={"update_search": u.loc(), "sorted_search": s.loc()})
-            # a hit is served only after a tombstone test
+            # a hit in the update section is FINAL: whatever its status, the sorted section is not consulted behind it (the update section holds the
+            # key's newest record - its current location, a residency marker carrying that location, or its tombstone)
+            from .cachebooks import option_edges
+            hit_edges = option_edges(b, u.dest[0])
+            if ctx.anchor("C05.R3", hit_edges, "branch on the result of the update-section search"):
+                some_e = hit_edges[0][0]
+                after_hit = b.reachable([some_e])
+                for fb, s_ in ss:
+                    if fb.id == b.id:
+                        ctx.check(s_.bb not in after_hit, "C05.R3", [b.id, "hit-is-final"], "no path from an update-section hit to the sorted-section search",
+                                  "search_both_sections can fall through from an update-section HIT to the sorted-section search (for some status of the hit): the "
+                                  "sorted section then answers with the key's older record - a stale location, or nothing for a key that was added and not yet "
+                                  "flushed", s_.loc(), sample={"hit_edge": some_e, "sorted_search": s_.loc()})
+            # a hit is served only after a tombstone test - written as `status == Delete` / `!=`, or as a match on the status
             conv = b.calls_matching(cfg["to_entry_pat"])
             eqs = b.calls_matching(cfg["status_eq_pat"])
-            if ctx.anchor("C05.R3", conv, "conversion of the update hit (to_index_entry)") and \
-               ctx.anchor("C05.R3", eqs, "comparison of the hit's status with a tombstone"):
+            delete_disc = None
+            for aid, adt in ctx.prog.adts.items():
+                if aid.endswith("::UpdateStatus"):
+                    for v in adt.get("variants", []):
+                        if v.get("name") == "Delete":
+                            delete_disc = v.get("discr")
+            match_gate = None
+            if not eqs and hit_edges and delete_disc is not None:
+                for bb_ in sorted(b.reachable([hit_edges[0][0]])):
+                    t_ = b.blocks[bb_]["t"]
+                    if t_["k"] != "Switch" or op_local(t_["d"]) is None:
+                        continue
+                    dl = op_local(t_["d"])
+                    is_status = any(st_["p"] == [dl] and st_["r"]["k"] == "Discr" and "status" in place_fields(st_["r"]["p"]) for (i_, j_, st_) in b.stmts())
+                    if is_status:
+                        tg = dict((str(v), t) for v, t in t_["v"]).get(str(delete_disc))
+                        if tg is not None:
+                            match_gate = (bb_, tg)
+            if ctx.anchor("C05.R3", conv, "conversion of the update hit (to_index_entry)") and match_gate is not None:
+                sbb, tg = match_gate
+                reach = b.reachable([tg])
+                served = reach & {c.bb for c in conv}
+                none_ret = set(assigns_variant(b, "None")) & reach
+                ctx.check(not served and bool(none_ret) and all(b.dominates(sbb, c.bb) for c in conv), "C05.R3", [b.id, "tombstone-gate"],
+                          "the Delete arm of the match on the hit's status returns None and serves nothing",
+                          "search_both_sections serves an update-section hit without (or regardless of) the Delete-tombstone test", "%s:%s" % (b.file, b.blocks[sbb]["t"].get("l", 0)),
+                          sample={"match_block": sbb, "delete_arm": tg})
+            elif ctx.anchor("C05.R3", conv, "conversion of the update hit (to_index_entry)") and \
+               ctx.anchor("C05.R3", eqs, "test of the hit's status against the tombstone (== / != / match)"):
                 e = eqs[0]
                 is_ne = e.name.endswith("::ne") or e.full.endswith("::ne")
                 sw = bool_switches(b, e.dest[0])
